@@ -60,6 +60,7 @@ class UnitResult:
         self.obligations = 0
         self.discharged = 0
         self.wall_s = 0.0
+        self.bare_closures = {}    # fn -> closures without a contract (non-trivial bodies) in the extracted text
         self.unconfirmed = []      # failures of the full run that vanish when the function is verified alone (solver instability, not violations)
 
 
@@ -183,7 +184,7 @@ def _classify(unit, name, diags, vr, have_times):
             key = L.norm(clause_txt) or site_txt[:100]
         oid = "%s:%s:%s:%s" % (name, fname, kind, key)
         lost = sorted(g for g in unit.lost_ghost.get(fname, ()) if re.search(r"\b%s\b" % re.escape(g), clause_txt + " " + (site_txt if kind != "post" else "")))
-        failures.append(dict(id=oid, fn=fname, kind=kind, clause=clause_txt, site=site_txt, lost_ghost=lost, lost_closures=list(unit.lost_closures.get(fname, [])),
+        failures.append(dict(id=oid, fn=fname, kind=kind, clause=clause_txt, site=site_txt, lost_ghost=lost, lost_closures=list(unit.lost_closures.get(fname, [])), bare_closures=list(unit.bare_closures.get(fname, [])),
                                  site_origin=list(site_origin), clause_origin=list(clause_origin) if clause_origin else None,
                                  message=msg, rendered=d.get("rendered", ""), props=(fn["props"] if fn else [])))
     return failures, front_end, rlimit
@@ -263,6 +264,7 @@ def check_unit(tpl_path, vacuity=True, keep=True):
     res.trusted = X.scan_trusted(text)
     res.assumed = unit.assumed
     res.required = unit.required
+    res.bare_closures = dict(unit.bare_closures)
     cmd, js, diags, wall, raw = run_verus(path)
     res.cmd = " ".join(cmd)
     if js is None:
